@@ -122,7 +122,7 @@ def _iter_templated_patches(
         templated_idx = segment.pos_marker.templated_slice.start
         insert_buff = ""
         first_segment_pos: Optional[PositionMarker] = None
-        for seg in segments:
+        for seg_idx, seg in enumerate(segments):
             # First check for insertions.
             # At this stage, everything should have a position.
             assert seg.pos_marker
@@ -151,13 +151,7 @@ def _iter_templated_patches(
             # source characters between `templated_idx` and the placeholder's
             # templated position (e.g. the opening quote of a quoted literal).
             # See: https://github.com/sqlfluff/sqlfluff/issues/6261
-            if (
-                seg.is_type("placeholder")
-                and seg.raw == ""
-                and is_zero_slice(seg.pos_marker.templated_slice)
-                and not is_zero_slice(seg.pos_marker.source_slice)
-                and getattr(seg, "block_type", "") == "templated"
-            ):
+            if BaseSegment._is_spanned_template_placeholder(segments, seg_idx):
                 # Yield any embedded source fixes (rare, but possible).
                 yield from _iter_source_fix_patches(seg, templated_file=templated_file)
                 # Do NOT update templated_idx here.  The placeholder occupies no
